@@ -70,7 +70,10 @@ func (rt *runtime) cmplFunctionDeclaration(list []*nodeFunctionLiteral) {
 
 	for _, function := range list {
 		name := function.name
-		value := rt.cmplEvaluateNodeExpression(function)
+		// 10.5 step 5: a declaration is closed over the running context's environment
+		// and bound (mutably) in its variable environment only; it has no private
+		// binding of its own name, unlike a named function expression.
+		value := objectValue(rt.newNodeFunction(function, executionContext.lexical))
 		if !stash.hasBinding(name) {
 			stash.createBinding(name, eval, value)
 		} else {
